@@ -2,7 +2,7 @@
 From Coq Require Import String.
 From Coq Require Import List NArith Bool Arith.
 Import ListNotations.
-From PV Require Import Regex Base UnicodeTables LexTables PyRepr Lexer ParserTables NodeModel ParserBase ParserDecl LexerProofs LiteralProofs.
+From PV Require Import Regex Base UnicodeTables LexTables PyRepr Lexer ParserTables NodeModel ParserBase ParserDecl LexerProofs LiteralProofs LitSpec LitBounded.
 
 Theorem C10_rules_not_nullable : forallb (fun r => negb (nullable (rre r))) regex_rules = true.
 Proof. exact rules_not_nullable. Qed.
@@ -54,3 +54,11 @@ Theorem C10_suffix_typing :
   float_const_type (s2l "0x1p3") = Some (s2l "double").
 Proof. exact suffix_typing. Qed.
 Print Assumptions C10_suffix_typing.
+
+(* bounded (the bound is in the statement), exhaustive, kernel-checked: over the 24-character literal
+   alphabet, every string of length <= 4 is returned by the lexer model as ONE literal token of class K
+   exactly when the independent C99 literal grammar accepts the whole string as a literal of class K *)
+Theorem C10_literal_iff_wellformed_bounded : forall s,
+  (length s <= 4)%nat -> Forall (fun c => In c lit_alphabet) s -> spec_class s = model_class s.
+Proof. exact literal_iff_wellformed_bounded. Qed.
+Print Assumptions C10_literal_iff_wellformed_bounded.
